@@ -21,9 +21,20 @@ func c20Contains(s, sub string) bool {
 }
 
 func VerifC20Secrets() {
-	canary := "CNR" + vrtStringN("canary", vrtParam("CL", 2), "ab1")
+	// the document is the main file, or arrives through an include; the secret's variable comes from the caller's
+	// environment, from the env_file of the include entry or from the .env of the included project
+	route := vrtChoice("viaInclude", 4)
+	var canary string
+	if route >= 2 {
+		canary = "CNRa1" // read from a file by the real dotenv parser: a fixed value
+	} else {
+		canary = "CNR" + vrtStringN("canary", vrtParam("CL", 2), "ab1")
+	}
 	cfgCanary := "CFG" + vrtStringN("cfgCanary", 1, "ab1")
 	env := types.Mapping{"SECRET_VAR": canary, "CONFIG_VAR": cfgCanary}
+	if route >= 2 {
+		delete(env, "SECRET_VAR")
+	}
 	referenced := vrtChoice("referenced", 2) == 1
 	svc := map[string]any{"image": "i"}
 	if referenced {
@@ -45,13 +56,26 @@ func VerifC20Secrets() {
 			"textcfg": map[string]any{"content": "plain"},
 		},
 	}
-	// the document is the main file, or arrives through an include
-	if vrtChoice("viaInclude", 2) == 1 {
+	if route >= 1 {
 		vrtYamlFile(vrtRoot()+"/w/inc/compose.yaml", doc)
-		doc = map[string]any{"include": []any{"inc/compose.yaml"}, "services": map[string]any{"own": map[string]any{"image": "i"}}}
+		var entry any = "inc/compose.yaml"
+		switch route {
+		case 2:
+			vrtFile(vrtRoot()+"/w/inc/vars.env", "SECRET_VAR="+canary+"\n")
+			entry = map[string]any{"path": "inc/compose.yaml", "env_file": "inc/vars.env"}
+		case 3:
+			vrtFile(vrtRoot()+"/w/inc/.env", "SECRET_VAR="+canary+"\n")
+		}
+		doc = map[string]any{"include": []any{entry}, "services": map[string]any{"own": map[string]any{"image": "i"}}}
 	}
 	vrtMapOrder([]int{0, 3, 4}[vrtChoice("maporder", 3)]) // insertion, sorted ascending, sorted descending
-	p, err := tcLoadProject(env, nil, doc)
+	// path resolution has nothing to do with secrets: switching it off changes nothing here
+	noPaths := vrtChoice("pathResolutionOff", 2) == 1
+	p, err := tcLoadProject(env, func(o *Options) {
+		if noPaths {
+			o.ResolvePaths = false
+		}
+	}, doc)
 	vrtMapOrder(0)
 	vrtAssert("loads", err == nil)
 	if err != nil {
